@@ -35,6 +35,14 @@ CHECKS = {
         "in the integer window, only refines, invariants hold; graph (including the graded meshes) equals the real graph; graded real meshes after "
         "random histories (uniform and non-uniform root grids) are judged by TLC (window with per-root thresholds, tiling, 1-irregularity).",
    note="Window tests in integer form with thresholds computed at 50 digits; graded meshes above a leaf cap dropped and counted. Trusted: TLC, projection, mpmath."),
+ "C16": dict(level="model_checking", design="§5 C16", engine="quadtree",
+   technique="TLC model checking of QuadTree.tla (code-shaped balance recursion, boundary targeting) + bounded bisimulation with the real InitialMesh + TLC-judged traces",
+   text="All sequences of refine / uniform_refine / refine_msh_bdr within a subdivision budget on unit square, pi square and L-shape, and every boundary "
+        "segment [k/2^l,(k+1)/2^l] of every unit piece up to SegMaxL (both orientations; end points as tuples, lists, 2x1 arrays): TLC checks tiling, 2:1 balance, "
+        "refine == least balanced closure, targeting post-conditions (exactly one leaf with the segment as an edge, end points are corners, touching cells have an "
+        "end point as corner); the dumped graph equals the real graph; every real state (tiling, balance, vertex uniqueness, levels) and every targeting call "
+        "(returned cell, vertex_from_coords) is judged by TLC; random histories with deep segments (l <= 10).",
+   note="refine_msh_bdr only for segments contained in an edge of a current leaf (precondition, found by TLC); uniform_refine only on level-uniform meshes. Trusted: TLC, projection by the code's midpoint rule."),
 }
 
 NOT_YET = {}
@@ -73,6 +81,8 @@ def main():
         "engines": [
             {"name": "stmesh", "path": "/verif/spec/STMesh.tla", "serves_properties": ["C02", "C10", "C06", "C19", "C18"],
              "kind_free_text": "TLA+ specification of the space-time mesh; TLC exhaustive + trace judge (spec/trace/TraceSTMesh.tla)"},
+            {"name": "quadtree", "path": "/verif/spec/QuadTree.tla", "serves_properties": ["C16", "C08"],
+             "kind_free_text": "TLA+ specification of the domain quadtree; TLC exhaustive + trace judge (spec/trace/TraceQuadTree.tla)"},
         ],
         "checks": checks,
         "not_applicable": na,
